@@ -1,5 +1,6 @@
 import DaskModel.Model.Structural
 import DaskModel.Lemmas.StructuralLemmas
+import DaskModel.Generated.ChunkTolerance
 /-!
 # C24 — structural array operations equal NumPy (theorems)
 
@@ -220,5 +221,67 @@ theorem reshape_merge_den {α} (m : Nat) : ∀ (cs : List Nat) (rows : List (Lis
     have ih := reshape_merge_den m cs (rows.drop c) (fun r hr => h r (List.mem_of_mem_drop hr))
     simp only [reshapeMergeBlocks, splitBy, List.map_cons] at ih ⊢
     rw [i1, ih, i2]
+
+/-- **shuffle_den** (`take` / `shuffle`, one output chunk): per source chunk a fancy `getitem` with the local positions of
+    the *sorted* taker, concatenation, then `take(…, argsort(sorter))` puts element `taker[p]` of the axis at position
+    `p` — for every old chunking and every taker (duplicates, any order). -/
+theorem shuffle_den {α} [Inhabited α] (old : List Nat) (xs : List α) (T : List Nat) (hT : ∀ g ∈ T, g < sum old) :
+    shuffleChunk old (splitBy old xs) T = T.map (fun g => xs.getD g default) := by
+  -- the concatenated pieces are the data at the sorted positions
+  have hsorted_mem : ∀ g ∈ (sortPairs T).map (·.1), g < sum old := by
+    intro g hg
+    obtain ⟨pr, hpr, rfl⟩ := List.mem_map.1 hg
+    have := (mem_sortPairs T pr).1 hpr
+    exact hT _ (List.mem_of_getElem? this)
+  have hmerged : (runsBy (sourceOf old) ((sortPairs T).map (·.1))).flatMap
+      (fun cr => cr.2.map (fun g => ((splitBy old xs).getD cr.1 []).getD (g - blockStart old cr.1) default))
+      = ((sortPairs T).map (·.1)).map (fun g => xs.getD g default) := by
+    conv => rhs; rw [← runsBy_flatten (sourceOf old) ((sortPairs T).map (·.1))]
+    rw [List.map_flatMap]
+    apply flatMap_congr'
+    intro cr hcr
+    apply List.map_congr_left
+    intro g hg
+    have hk := runsBy_key _ _ cr hcr g hg
+    have hgm : g ∈ (sortPairs T).map (·.1) := by
+      rw [← runsBy_flatten (sourceOf old) ((sortPairs T).map (·.1))]
+      exact List.mem_flatMap.2 ⟨cr, hcr, hg⟩
+    rw [← hk]
+    exact block_read old xs g (hsorted_mem g hgm)
+  unfold shuffleChunk
+  dsimp only
+  rw [hmerged]
+  apply List.ext_getElem
+  · simp
+  · intro p h1 h2
+    simp only [List.length_map, List.length_range] at h1
+    simp only [List.getElem_map, List.getElem_range]
+    -- position of `p` in the sorter
+    have hpm : (T[p], p) ∈ sortPairs T := (mem_sortPairs T (T[p], p)).2 (by simp [List.getElem?_eq_getElem h1])
+    have hps : p ∈ (sortPairs T).map (·.2) := List.mem_map.2 ⟨_, hpm, rfl⟩
+    have hi := List.idxOf_lt_length_of_mem hps
+    have hget := List.getElem_idxOf hi
+    generalize hidx : List.idxOf p (List.map (fun x => x.2) (sortPairs T)) = i at *
+    have hi' : i < (sortPairs T).length := by simpa using hi
+    have hpair := (mem_sortPairs T (sortPairs T)[i]).1 (List.getElem_mem hi')
+    simp only [List.getElem_map] at hget
+    rw [hget, List.getElem?_eq_getElem h1] at hpair
+    injection hpair with hpair
+    rw [List.getD_eq_getElem?_getD, List.getElem?_map, List.getElem?_map, List.getElem?_eq_getElem hi']
+    simp [← hpair]
+
+example : shuffleChunk [2, 3] (splitBy [2, 3] [10, 11, 12, 13, 14]) [4, 0, 4, 2] = [14, 10, 14, 12] := by decide
+
+/-- the grouping loop of `_shuffle` loses / reorders nothing (whatever the size limit and tolerance) and
+    never emits an empty chunk -/
+theorem packGroups_flatten (limit tn td : Nat) (groups : List (List Nat)) (cur : List Nat) :
+    (packGroups limit tn td cur groups).flatten = cur ++ groups.flatten ∧
+    ∀ c ∈ packGroups limit tn td cur groups, c ≠ [] := packGroups_spec limit tn td groups cur
+
+/-- …in particular with the tolerance the code reads from dask.yaml (extracted on every run) -/
+theorem packGroups_flatten_extracted (limit : Nat) (groups : List (List Nat)) :
+    (packGroups limit Dask.Generated.ChunkTolerance.tolNum Dask.Generated.ChunkTolerance.tolDen [] groups).flatten
+      = groups.flatten := by
+  simpa using (packGroups_flatten limit _ _ groups []).1
 
 end Dask.C24
